@@ -679,6 +679,57 @@ def rule_OW5_files(ctx, mod, E):
               sample={'name_parts': sorted(parts)})
 
 
+def clean_resets(ctx, mod):
+    """The values of `what` under which Simulation.clean resets the computed
+    flag (read off the guards of `self._computed = False`)."""
+    from ..core.tables import FiniteEval as _FE
+    cl = mod.method('Simulation', 'clean')
+    cpar = au.params(cl)[1]
+    dom_, resets = set(), set()
+    for n in ast.walk(cl):
+        if isinstance(n, ast.Compare) and isinstance(n.left, ast.Name) and \
+                n.left.id == cpar and au.const_list(n.comparators[0]):
+            dom_ |= set(au.const_list(n.comparators[0]))
+    for w in sorted(dom_):
+        fe = _FE({cpar: w}, where=mod.rel)
+        for st in ast.walk(cl):
+            if isinstance(st, ast.Assign) and ast.unparse(st.targets[0]) == \
+                    'self._computed' and ast.unparse(st.value) == 'False':
+                if all(bool(fe.ev(t)) == pol
+                       for t, pol in au.guards_of(st, cl)):
+                    resets.add(w)
+    return resets
+
+
+def mode_switch(ctx, mod, rule):
+    """Switching the computation mode of an existing simulation
+    (`sim.layered = ...`) makes everything computed so far belong to the
+    other mode: the setter has to drop it (else the misfit of the 3D run is
+    reported for the layered data, and the layered gradient starts from the
+    3D residual)."""
+    setters = [m for m in mod.methods('Simulation', 'layered')
+               if any(d.endswith('.setter') for d in au.decorator_names(m))]
+    ctx.anchor(len(setters) == 1, 'Simulation.layered setter')
+    st = setters[0]
+    resets = clean_resets(ctx, mod)
+    ctx.anchor(resets, 'Simulation.clean(what) resetting the computed flag')
+    calls = [c for c in au.calls(st) if ast.unparse(c.func) == 'self.clean'
+             and c.args and isinstance(c.args[0], ast.Constant) and
+             c.args[0].value in resets]
+    par = au.params(st)[1]
+    ok = False
+    for c in calls:
+        gs = au.guards_of(c, st)
+        # unguarded, or guarded only by "the mode really changes"
+        if all({x.id for x in ast.walk(t) if isinstance(x, ast.Name)} <=
+               {par, 'self'} for t, _ in gs):
+            ok = True
+    ctx.check(rule, 'Simulation.layered setter drops the computed state',
+              ok, 'the mode is switched while synthetic data, misfit, '
+              'gradient and the computed flag of the other mode stay',
+              ctx.where(mod, st))
+
+
 def rule_OW7(ctx, mod, E):
     """Two data variables must never share memory: a store
     `data[a] = data[b]` (no copy) makes later in-place `.loc[...] =` writes of
@@ -735,6 +786,7 @@ def run(ctx):
     rule_OW6_serial(ctx, mod, E)
     rule_OW7(ctx, mod, E)
     rule_OW5_files(ctx, mod, E)
+    mode_switch(ctx, mod, 'C12.OW3.mode')
     # the transient hand-over attribute of to_file is consumed by to_dict
     # (a leftover makes every later copy()/to_dict(what) use the old `what`)
     from . import c17
